@@ -75,6 +75,15 @@ def apply_rewrites(text, rewrites, log, key):
             if count is not None and found != count:
                 raise LostAnchor('%s: regex rewrite %r expected %d match(es), found %d' % (key, pat[:60], count, found))
             log.append({'item': key, 'rule': 're', 'old': pat, 'new': repl, 'count': found})
+        elif kind == 'refn':
+            # regex with a python callable computing the replacement from the match (e.g. operator -> stub function),
+            # so that a changed operator still extracts (and then fails its obligation) instead of losing the anchor
+            _, pat, fn, count = rw
+            found = len(re.findall(pat, text))
+            if count is not None and found != count:
+                raise LostAnchor('%s: regex rewrite %r expected %d match(es), found %d' % (key, pat[:60], count, found))
+            text = re.sub(pat, fn, text)
+            log.append({'item': key, 'rule': 'refn', 'old': pat, 'new': getattr(fn, '__doc__', None) or 'callable', 'count': found})
         else:
             raise ValueError('unknown rewrite kind %r' % (kind,))
     return text
